@@ -11,6 +11,7 @@ package stringy
 import (
 	"context"
 	"regexp"
+	"strings"
 
 	tq "github.com/facebookincubator/tacquito"
 	"github.com/facebookincubator/tacquito/cmds/server/config"
@@ -88,7 +89,9 @@ func (a CommandBasedAuthorizer) evaluate() bool {
 		}
 	}
 	for _, c := range a.user.Commands {
-		c.TrimSpace()
+		// trim on local copies only: c.Match shares its backing array with the loaded config,
+		// which concurrent requests for this user read
+		c.Name = strings.TrimSpace(c.Name)
 		if c.Name == "*" {
 			// special condition of allow anything
 			return returnBool(c.Action)
@@ -102,6 +105,7 @@ func (a CommandBasedAuthorizer) evaluate() bool {
 		}
 
 		for _, regexish := range c.Match {
+			regexish = strings.TrimSpace(regexish)
 			if len(regexish) == 0 {
 				continue
 			}
